@@ -121,6 +121,7 @@ def run(ck):
 
     # ---------------------------------------------------------------- R5 the export walk covers every stored byte once
     _r5_export_partition(ck, m)
+    _base_offset_rules(ck, m)
 
 
 def byte_order_rules(ck, m, RID):
@@ -383,3 +384,103 @@ def _r5_export_partition(ck, m):
     ys = [n for n in walk_body(fn) if isinstance(n, ast.Yield)]
     ok = any(norm(y.value) == "first_element" for y in ys)
     ck.ob("R5", "MemArray.memory:wrapped-yielded", ok, m.where(fn), "the merged wrapped value is never output")
+
+
+# ---------------------------------------------------------------------------------------------------------------------------
+# R7  get_expr_base_offset is a lossless split: base + offset denotes the pointer, and two pointers that differ by a constant
+#     only get the same base.  Decided per path of the function (sa/symval): the returned pair must be one of
+#       (E, 0)                                     - nothing split
+#       (<fresh id>, int(E))       under E.is_int()
+#       (ExprOp('+', *E.args[:-1]), int(E.args[-1]))  under E.is_op('+'), E.args[-1].is_int() and "more than one term remains"
+#       (E.args[0], int(E.args[-1]))                  under the same facts and "exactly one term remains"
+#     the number of remaining terms being decided from the length comparisons on the path (len(E.args) / len(E.args[:-1])
+#     against constants), for every n = len(E.args) >= 2.
+def _flat_conds(conds):
+    out = []
+
+    def add(t, v):
+        if isinstance(t, ast.BoolOp) and isinstance(t.op, ast.And) and v:
+            for x in t.values:
+                add(x, True)
+        elif isinstance(t, ast.BoolOp) and isinstance(t.op, ast.Or) and not v:
+            for x in t.values:
+                add(x, False)
+        elif isinstance(t, ast.UnaryOp) and isinstance(t.op, ast.Not):
+            add(t.operand, not v)
+        else:
+            out.append((t, v))
+    for t, v in conds:
+        add(t, v)
+    return out
+
+
+def _len_models(conds, E):
+    """the values n in 2..40 of len(E.args) compatible with the length comparisons among `conds` (comparisons of len(E.args) or
+    len(E.args[:-1]) with integer constants; anything else is ignored = weaker facts)"""
+    def lin(x):
+        t = norm(x)
+        if t == "len(%s.args)" % E:
+            return lambda n: n
+        if t in ("len(%s.args[:-1])" % E, "len(%s.args) - 1" % E):
+            return lambda n: n - 1
+        if isinstance(x, ast.Constant) and isinstance(x.value, int):
+            return lambda n, c=x.value: c
+        return None
+    import operator
+    OPS = {ast.Eq: operator.eq, ast.NotEq: operator.ne, ast.Lt: operator.lt, ast.LtE: operator.le, ast.Gt: operator.gt, ast.GtE: operator.ge}
+    ns = set(range(2, 41))
+    for t, v in conds:
+        if isinstance(t, ast.Compare) and len(t.ops) == 1 and type(t.ops[0]) in OPS:
+            a, b = lin(t.left), lin(t.comparators[0])
+            if a is None or b is None:
+                continue
+            f = OPS[type(t.ops[0])]
+            ns = set(n for n in ns if bool(f(a(n), b(n))) == v)
+    return ns
+
+
+def _base_offset_rules(ck, m):
+    from sa import symval
+    ck.rule("R7", "get_expr_base_offset splits a pointer without loss: base + offset is the pointer, the base of A + .. + cst is A + ..", floor=3)
+    fn = m.func("get_expr_base_offset")
+    E = fn.args.args[0].arg
+    ps = symval.paths(fn.body, env={})
+    ck.need(ps, "get_expr_base_offset: no path found")
+    k = 0
+    for p in ps:
+        if p.kind == "raise":
+            continue
+        where = m.where(fn)
+        if p.kind != "return" or not isinstance(p.value, ast.Tuple) or len(p.value.elts) != 2:
+            ck.ob("R7", "get_expr_base_offset:returns-a-pair", False, where, "a path of get_expr_base_offset does not return (base, offset)")
+            continue
+        conds = _flat_conds(p.conds)
+        holds = set(norm(t) for t, v in conds if v)
+        B, O = p.value.elts
+        b, o = norm(B), norm(O)
+        k += 1
+        label = "get_expr_base_offset:%s" % o
+        if b == E and o == "0":
+            continue
+        if o == "int(%s)" % E:
+            ck.ob("R7", label, "%s.is_int()" % E in holds, where, "the whole pointer is taken as the offset on a path where it is not known to be an integer")
+            continue
+        if o == "int(%s.args[-1])" % E:
+            facts_ok = "%s.is_op('+')" % E in holds and "%s.args[-1].is_int()" % E in holds
+            ns = _len_models(conds, E)
+            if b in ("ExprOp('+', *%s.args[:-1])" % E,):
+                good = all(n >= 3 for n in ns)
+                why = "the sum of the remaining terms is rebuilt on a path where only one term may remain (len(args) in %s)" % sorted(ns)[:4]
+            elif b in ("%s.args[0]" % E, "%s.args[:-1][0]" % E):
+                good = all(n == 2 for n in ns)
+                why = ("the first term alone is taken as the base on a path where more terms may remain (len(args) in %s...): A + B + cst "
+                       "gets base A, so it aliases A + cst and is separated from A + B" % sorted(ns)[:4])
+            else:
+                from sa.repo import AnalysisError
+                raise AnalysisError("get_expr_base_offset: base `%s` of a split pointer is a form this rule does not know" % b)
+            ck.ob("R7", "get_expr_base_offset:base:%s" % b, facts_ok and bool(ns) and good, where,
+                  why if facts_ok else "the last argument is split off on a path where the pointer is not known to be a sum ending with an integer")
+            continue
+        from sa.repo import AnalysisError
+        raise AnalysisError("get_expr_base_offset: returned pair (%s, %s) is a form this rule does not know" % (b, o))
+    ck.need(k >= 3, "get_expr_base_offset: fewer than 3 returning paths understood (%d)" % k)
